@@ -207,7 +207,10 @@ class Expr(ABC):
         """
 
         if isinstance(self, Variable) and self.bound:
-            return self.bound.normalize(recursive)
+            # Every occurrence of a parameter gets its own copy of the
+            # argument: normalizing changes applications and abstractions in
+            # place
+            return self.bound.copy().normalize(recursive)
 
         elif isinstance(self, Abstraction):
             if recursive:
@@ -235,6 +238,37 @@ class Expr(ABC):
                     assert not recursive
                     return self.f.normalize(recursive)
 
+        return self
+
+    def copy(self, renamed: Optional[dict[Variable, Variable]] = None) -> Expr:
+        """
+        A copy of this expression that can be normalized without changing
+        this one: applications and abstractions (with their parameters) are
+        new objects; sources, operations, free variables and all types are
+        shared.
+        """
+        renamed = dict() if renamed is None else renamed
+        if isinstance(self, Variable):
+            if self.bound:
+                return self.bound.copy(renamed)
+            return renamed.get(self, self)
+        elif isinstance(self, Application):
+            new = Application.__new__(Application)
+            new.f = self.f.copy(renamed)
+            new.x = self.x.copy(renamed)
+            new.type = self.type
+            return new
+        elif isinstance(self, Abstraction):
+            new_abs = Abstraction.__new__(Abstraction)
+            new_abs.params = []
+            for p in self.params:
+                q = Variable()
+                q.type = p.type
+                renamed[p] = q
+                new_abs.params.append(q)
+            new_abs.body = self.body.copy(renamed)
+            new_abs.type = self.type
+            return new_abs
         return self
 
     def fix(self) -> None:
